@@ -13,10 +13,10 @@ INFO = {
         'result; (ident) teams built from the same symbols get identical values, two identical teams exactly 1/2; (mono) two-run with one '
         'member\'s mu raised by a symbolic d > 0: own value does not decrease, no other value increases.'),
     'bounds': {
-        'quick': 'five models x shapes (1,1),(2,1),(2,2),(1,1,1),(1,2,1),(1,1,1,1),(2,1,2,1), all clauses, all n! team permutations',
+        'quick': 'five models x shapes (1,1),(2,1),(2,2),(1,1,1),(1,2,1),(1,1,1,1),(2,1,2,1), all clauses, all n! team permutations; eight teams of one and of eight players: range, sum, identical teams',
         'thorough': '+ (3,2),(2,3,1) all clauses, (1,1,1,1,1) range/sum/ident and 12 of 120 permutations',
     },
-    'outside': ['IEEE rounding', '6-8 teams'],
+    'outside': ['IEEE rounding', 'permutation and monotonicity clauses for 6-8 teams'],
     'stubs': None,
     'axioms': ['T0/T1 for Phi (range, Phi(0)=1/2, strict monotonicity, negation)'],
     'assumptions': ['real-number semantics (mode R)'],
@@ -42,6 +42,11 @@ def jobs(tier):
             add(key, shape, 'ident', cost=30)
             add(key, shape, 'perm', cost=60, budget=600 if tier == 'quick' else 2400, nperm=24)
             add(key, shape, 'mono', cost=300, budget=600 if tier == 'quick' else 2400)
+        # the full size the property names: eight teams (of one and of eight players)
+        for shape in [(1,) * 8, (8,) * 8]:
+            add(key, shape, 'dist', cost=100, budget=600)
+            if tier == 'thorough' or shape == (1,) * 8:
+                add(key, shape, 'ident', cost=150, budget=600)
         if tier == 'thorough':
             for shape in [(3, 2), (2, 3, 1)]:
                 for clause in ('dist', 'perm', 'ident', 'mono'):
